@@ -168,7 +168,8 @@ def narrow_values(rng, signed, n, f, count, dtype):
 
 SHAPES = [((), "c"), ((), "pyscalar"), ((), "npscalar"), ((0,), "c"), ((1,), "c"), ((7,), "c"), ((7,), "strided"),
           ((3, 4), "c"), ((3, 4), "t"), ((3, 4), "f"), ((2, 3, 2), "c"), ((2, 3, 2), "t"), ((5, 1), "c"),
-          ((1, 6), "strided"), ((2, 0, 3), "c"), ((2, 2, 2, 2), "f")]
+          ((1, 6), "strided"), ((2, 0, 3), "c"), ((2, 2, 2, 2), "f"),
+          ((6,), "readonly"), ((2, 3), "readonly"), ((3, 4), "broadcast"), ((2, 1, 5), "broadcast")]
 
 
 def split_arrays(rng, items):
@@ -183,6 +184,14 @@ def split_arrays(rng, items):
         size = 1
         for d in shape:
             size *= d
+        if layout == "broadcast":              # the last axis is real, the others repeat it
+            m = shape[-1]
+            if m > len(items) - i:
+                shape, layout, size = (len(items) - i,), "c", len(items) - i
+            else:
+                out.append((list(shape), layout, items[i:i + m] * (size // m)))
+                i += m
+                continue
         if size > len(items) - i:
             shape, layout, size = (len(items) - i,), "c", len(items) - i
         out.append((list(shape), layout, items[i:i + size]))
@@ -241,6 +250,26 @@ def gen_groups(rng, tier):
         if n >= 2:
             groups.append(dict(kind="back", signed=s, n_bits=n, n_frac=f,
                                vs=gen_ints(rng, s, n, max(per // 3, 40)), nomodel=nomodel(k)))
+    # --- one input array object converted by several converters in turn (narrow formats first, then wide ones;
+    #     n_frac 0 and others): every result is judged against the ORIGINAL values, and the input must be intact
+    seqs = [[(True, 8, 0), (True, 16, 0), (False, 8, 0), (True, 32, 0), (False, 16, 0), (True, 64, 0)],
+            [(False, 8, 0), (True, 8, 3), (True, 16, 4), (False, 32, 0), (True, 64, -4), (False, 64, 0)],
+            [(True, 16, 0), (True, 16, 0), (False, 32, 16), (True, 32, 0), (False, 64, 0)],
+            [(True, 8, 4), (True, 8, 0), (True, 32, 0), (True, 12, 0), (False, 16, 8), (True, 64, 0)]]
+    for rep in range(12 if thorough else 3):
+        for si, seq in enumerate(seqs):
+            for dtype in ("float64", "float32"):
+                first = seq[0]
+                vals = (gen_values(rng, first[0], first[1], first[2], 40, nonfinite=False) if dtype == "float64"
+                        else narrow_values(rng, first[0], first[1], first[2], 40, dtype))
+                vals += [f2b(v) for v in (300.5, -300.5, 127.5, 128.0, 255.9, 256.0, -129.0, 40000.25, -40000.75,
+                                          3e9, -3e9, 1e30, -1e30)]
+                for shape, layout, part in split_arrays(rng, vals):
+                    if layout == "pyscalar" and dtype != "float64":
+                        layout = "npscalar"
+                    groups.append(dict(kind="npseq", signed=first[0], n_bits=first[1], n_frac=first[2],
+                                       formats=[list(t) for t in seq], xs=part, shape=shape, layout=layout,
+                                       dtype=dtype))
     # --- float32 / float16 input arrays: implementation and oracle only (the Coq model is binary64)
     for dtype in ("float32", "float16"):
         for s in (True, False):
@@ -360,13 +389,20 @@ def judge_fp(signed, n, f, x, out, who):
 def desc(g):
     return "%s(signed=%s, n_bits=%d, n_frac=%d)" % (
         {"fp": "float_to_fp", "np": "NumpyFloatToFixConverter", "fix": "float_to_fix", "unfix": "fix_to_float",
-         "back": "fp_to_float/float_to_fp", "npback": "NumpyFixToFloatConverter"}[g["kind"]],
+         "back": "fp_to_float/float_to_fp", "npback": "NumpyFixToFloatConverter",
+         "npseq": "NumpyFloatToFixConverter (first of a sequence)"}[g["kind"]],
         g["signed"], g["n_bits"], g["n_frac"])
 
 
-def oracle(chk, g, out):
+def oracle(chk, g, out, case=None, prefix=""):
     """Decide C16's sentences on the implementation's outputs of one group; report failing inputs."""
     kind, s, n, f = g["kind"], g["signed"], g["n_bits"], g["n_frac"]
+    if kind == "npseq" and out != ["hang"]:
+        for k, ((s_, n_, f_), o) in enumerate(zip(g["formats"], out)):
+            sub = dict(g, kind="np", signed=s_, n_bits=n_, n_frac=f_)
+            oracle(chk, sub, o, case=g, prefix="call %d of %d on the same input array object (formats %r): "
+                   % (k + 1, len(out), [tuple(t) for t in g["formats"]]))
+        return
     judged = 8 <= n <= 64                     # the property speaks of formats of 8 to 64 bits
     reported = set()
 
@@ -378,8 +414,8 @@ def oracle(chk, g, out):
             for fld in ("xs", "vs", "wv"):
                 if fld in sub and "index" in extra and g.get("layout", "c") == "c" and kind not in ("np", "npback"):
                     sub[fld] = [g[fld][extra["index"]]]
-            rep["case"] = sub
-            chk.fail_input(key, desc(g) + ": " + what, rep)
+            rep["case"] = case or sub
+            chk.fail_input(key, prefix + desc(g) + ": " + what, rep)
 
     if out == ["hang"]:
         fail(kind + ":hang", "does not return")
@@ -443,12 +479,16 @@ def oracle(chk, g, out):
                      index=i, observed=[a, b])
     elif kind == "np":
         arr, scal = out["array"], out["scalar"]
+        # NB: a converter that modifies the caller's input array is not, by itself, a violation of C16's
+        # sentences (that is C17's kind of clause); its C16-level symptoms -- a wrong later conversion of the
+        # same array, an exception on a read-only input -- are judged below and by the npseq groups.
         if n not in NP_BITS:
             if arr != "fail1":
                 fail("numpy:no-valueerror", "unsupported width accepted")
             return
         if not isinstance(arr, dict):
-            fail("numpy:raises", "the array converter raised an exception")
+            fail("numpy:raises", "the array converter raised an exception on a %s input of shape %r (%s)"
+                 % (g.get("dtype", "float64"), g["shape"], g["layout"]))
             return
         if arr["shape"] != list(g["shape"]) or len(arr["vals"]) != len(g["xs"]):
             fail("numpy:shape", "input shape %r, output shape %r" % (g["shape"], arr["shape"]))
@@ -473,6 +513,7 @@ def oracle(chk, g, out):
                 break
     elif kind == "npback":
         arr, scal = out["array"], out["scalar"]
+        # (input modification alone is not judged here: see the note in the "np" branch)
         if not isinstance(arr, dict):
             fail("numpy-back:raises", "the array converter raised an exception")
             return
@@ -513,6 +554,13 @@ def coq_exprs(g, out):
         return [("float_to_fix", "mismatches (on_bits (float_to_fix %s)) %s 0" % (fmt, plist((x, o[0]) for x, o in zip(g["xs"], out))), g["xs"])]
     if kind == "unfix":
         return [("fix_to_float", "mismatches (to_bits (fix_to_float %s)) %s 0" % (fmt, plist((wv[0], o[0]) for wv, o in zip(g["wv"], out))), g["wv"])]
+    if kind == "npseq":
+        if g.get("dtype", "float64") != "float64":
+            return []
+        res = []
+        for (s_, n_, f_), o in zip(g["formats"], out):
+            res += coq_exprs(dict(g, kind="np", signed=s_, n_bits=n_, n_frac=f_), o)
+        return res
     if kind == "np":
         arr = out["array"]
         if isinstance(arr, str):
@@ -547,6 +595,15 @@ def size(g):
 
 def classify(chk, g, out):
     kind, s, n, f = g["kind"], g["signed"], g["n_bits"], g["n_frac"]
+    if kind == "npseq":
+        chk.count("groups:npseq")
+        chk.count("np-shape:%s/%s" % ("x".join(map(str, g["shape"])) or "0-d", g["layout"]))
+        for b in g["xs"]:
+            for (s_, n_, f_) in g["formats"]:
+                chk.count("npseq:conversions")
+                chk.note_case(["npseq", g["formats"], g.get("dtype"), s_, n_, f_, b],
+                              in_domain(b2f(b), f_, g.get("dtype", "float64")) and b2f(b) != 0)
+        return
     chk.count("groups:" + kind)
     if g.get("exhaustive"):
         chk.count("exhaustive-groups:%s/%d-bit" % (kind, n))
@@ -636,7 +693,7 @@ def run(chk, args):
         if k < len(groups):
             g = groups[k]
             chk.sample(dict(converter=desc(g), shape=g.get("shape"), layout=g.get("layout"),
-                            inputs=[(b2f(b).hex() if g["kind"] in ("fp", "np", "fix") else b)
+                            inputs=[(b2f(b).hex() if g["kind"] in ("fp", "np", "fix", "npseq") else b)
                                     for b in inputs_of(g)[:6]],
                             implementation=(outs[k][:6] if isinstance(outs[k], list) else
                                             dict(array=outs[k]["array"] if isinstance(outs[k]["array"], str)
@@ -677,7 +734,7 @@ def run(chk, args):
                         if nbad <= 3:
                             chk.disagree("%s %s: model and implementation differ on input #%d = %r (%s); %d of %d inputs differ"
                                          % (label, desc(g), i, inp,
-                                            b2f(inp).hex() if g["kind"] in ("fp", "np", "fix") else "int",
+                                            b2f(inp).hex() if g["kind"] in ("fp", "np", "fix", "npseq") else "int",
                                             len(bad), cnt), dict(case=g, index=i))
             if not nbad:
                 for label, cnt in sorted(per_label.items()):
@@ -692,7 +749,10 @@ def run(chk, args):
         "(outside the domain); arrays of 16 shape/layout kinds (0-d, Python and numpy scalars, empty, strided, "
         "transposed, Fortran order, up to 4-d); fixed-point integers incl. 2^53+-1 and the range ends for the way "
         "back; float32 and float16 input arrays for every supported width (values exactly representable in the narrow "
-        "type, incl. its neighbours of both range ends and of the rounded clip bound; oracle only); a malformed-format stream. thorough tier: all n_frac in -4..70 for the numpy widths, 600 values per "
+        "type, incl. its neighbours of both range ends and of the rounded clip bound; oracle only); read-only and "
+        "broadcast (zero-stride) inputs for both array converters; one input array object converted by 5-6 converters "
+        "in turn (narrow formats first, n_frac 0 and others), each result judged against the original values, and after "
+        "every array call the input array must be bit-identical; a malformed-format stream. thorough tier: all n_frac in -4..70 for the numpy widths, 600 values per "
         "format, the model evaluated on every 4th format; exhaustive enumeration of every value of every 8-bit "
         "format (all n_frac; model + oracle) and of 16-bit formats (oracle) for the way back, scalar and array, and of "
         "all 256 words for fix_to_float. non-trivial = input inside the property's domain whose result is not "
